@@ -10,6 +10,7 @@ import FlacModel.Model.Readers
 import FlacModel.Model.Writers
 import FlacModel.Model.ByteFront
 import FlacModel.Model.FixedPick
+import FlacModel.Model.RateEnc
 import FlacModel.Model.Md5
 import FlacModel.Model.Finalize
 import Driver.Gen
@@ -85,8 +86,25 @@ def opStreamrw (f : Fields) (impl : Fields) (implHead : String) (profile : Profi
   | none => "model-error bad-hex"
   | some bytes =>
     let out := streamOutcome bytes (((f.get "limit").toNat?).getD 100000) profile
+    -- the writer's side (`Model/RateEnc.lean`, `C16.accepted_rate_self_describing`): the header's sample-rate code of every frame written,
+    -- or a refusal, predicted from the rates the case asked for
+    let nf := ((f.get "nf").toNat?).getD 0
+    let codes := (List.range nf).map fun k => streamWriterRate ((((f.get s!"f{k}").splitOn ":").headD "").toNat?.getD 0)
+    let pcmCount (t : String) : Nat := if t == "-" || t == "" then 0 else
+      ((t.splitOn ",").map fun x => match x.splitOn "*" with | [_, n] => (n.toNat?).getD 1 | _ => 1).sum
+    let scodes := (List.range nf).map fun k =>
+      let parts := (f.get s!"f{k}").splitOn ":"
+      let ch := ((parts.getD 1 "").toNat?).getD 1
+      encBlockSizeCode (if ch == 0 then 0 else pcmCount (parts.getD 3 "") / ch)
+    let bcodes := (List.range nf).map fun k => streamWriterBps (((((f.get s!"f{k}").splitOn ":").getD 2 "").toNat?).getD 0)
+    if codes.any (·.isNone) then "err NonSubsetSampleRate" else
+    if bcodes.any (·.isNone) then "err NonSubsetBitsPerSample" else
+    if scodes.any (·.isNone) then "err InvalidBlockSize" else
+    let rc := if impl.get "ratecodes" == "" then "" else
+      " ratecodes=" ++ ",".intercalate (codes.map fun c => toString (c.getD 0)) ++ " bpscodes=" ++ ",".intercalate (bcodes.map fun c => toString (c.getD 0))
+        ++ " bscodes=" ++ ",".intercalate (scodes.map fun c => toString (c.getD 0))
     if out.startsWith "panic" then out
-    else s!"ok stream={impl.get "stream"} offs={impl.get "offs"} lens={impl.get "lens"} {out}"
+    else s!"ok stream={impl.get "stream"} offs={impl.get "offs"} lens={impl.get "lens"}{rc} {out}"
 
 /-- every frame FlacStreamWriter emitted (located by `offs`/`lens`) lies in the domain of `C16.written_frame_standalone`
     (`FrameWf none`, by the executable test) and is the serialization of its own parse -/
